@@ -1,16 +1,19 @@
 #!/usr/bin/env python3
-"""assemble_round2.py [matrix.json]: copy the confirmed round-2 changes from /tmp/wt-<ID>-out/{m3,m4,b1,b2,b3} into
+"""assemble_round2.py [matrix.json] (ROUND=2|3 in the environment): copy the confirmed round-2 changes from /tmp/wt-<ID>-out/{m3,m4,b1,b2,b3}
+(round 3: {m5,m6,b4,b5,b6}) into
 /verif/seeded/<ID>-<k>/ with patch.diff, the demonstration and a meta.json that records my confirmation (confirm_seed2.sh logs)
 and which static checks fire (seed_matrix.py results)."""
 import os, sys, json, re, glob, shutil
 mx = json.load(open(sys.argv[1] if len(sys.argv) > 1 else "/tmp/seed_matrix.json"))
 OUT = "/verif/seeded"
+ROUND = int(os.environ.get("ROUND", "2"))
+KEYS = ("m3", "m4", "b1", "b2", "b3", "b2r") if ROUND == 2 else ("m5", "m6", "b4", "b5", "b6")
 n = 0
 for d in sorted(glob.glob("/tmp/wt-C??-out")):
     pid = os.path.basename(d)[3:6]
     blog = os.path.join(d, "b-confirm.log")
     btxt = open(blog).read() if os.path.exists(blog) else ""
-    for k in ("m3", "m4", "b1", "b2", "b3", "b2r"):
+    for k in KEYS:
         src = os.path.join(d, k)
         if not os.path.exists(os.path.join(src, "patch.diff")):
             continue
@@ -51,7 +54,7 @@ for d in sorted(glob.glob("/tmp/wt-C??-out")):
         for fn in os.listdir(src):
             if fn in ("patch.diff", "demo.c", "demo.sh") or (fn.endswith((".xml", ".sh", ".c", ".h")) and os.path.getsize(os.path.join(src, fn)) < 200000):
                 shutil.copy(os.path.join(src, fn), os.path.join(dst, fn))
-        out = {"id": name, "round": 2, "kind": "benign refactoring (behaviour-preserving)" if benign else "property-breaking change", "property": pid,
+        out = {"id": name, "round": ROUND, "kind": "benign refactoring (behaviour-preserving)" if benign else "property-breaking change", "property": pid,
                "summary": meta.get("summary", ""), "files": meta.get("files", []), "functions": meta.get("functions", []),
                "author": "independent sub-agent given only the property text (with its anchor file names) and a scratch worktree",
                "confirmed_by_me": dict(conf, procedure="tools/confirm_seed2.sh %s in the scratch worktree /tmp/wt-%s" % (pid, pid)),
